@@ -76,6 +76,15 @@ def units():
     return u.MOLES_PER_CC_TO_ATOMS_PER_BARN_CM, u.CM2_PER_BARN
 
 
+def constants_of(cfg):
+    """the CONSTANTS lines of a cfg, for evidence"""
+    try:
+        with open(os.path.join(MODDIR, cfg)) as f:
+            return " ".join(ln.strip()[len("CONSTANTS"):].strip() for ln in f if ln.startswith("CONSTANTS"))
+    except OSError:
+        return ""
+
+
 def run_tlc(module, cfg, env, **kw):
     """TLC's output does not depend on armi: cache it per (cfg, env) inside one process (selftest runs many mutants)."""
     key = (module, cfg, tuple(sorted(env.items())), tuple(sorted(kw.items())))
@@ -184,7 +193,12 @@ class InvAdapter:
         q["mass"] = {s: float(o.getMass(spec) if spec is not None else o.getMass()) * K for s, spec in SELS.items()}
         ms = o.getMasses()
         q["masses"] = {k: float(ms.get(NAMES[k], 0.0)) * K for k in ORDER}
-        q["dens"] = float(o.density()) * K
+        if getattr(o, "p", None) is not None and "numberDensities" in o.p and not any(o.p.numberDensities.values()):
+            # a component whose composition is all-zero: Component.density() defers to the material -- outside the property (see the
+            # header of Inventory.tla), never compared; the deferral itself is exercised by empty_density_probe()
+            q["dens"] = "material"
+        else:
+            q["dens"] = float(o.density()) * K
         mf = o.getMassFracs()
         q["mf"] = {k: float(mf.get(NAMES[k], 0.0)) for k in ORDER}
         one = {k: float(o.getMassFrac(NAMES[k])) for k in ORDER}
@@ -335,25 +349,79 @@ class AreaAdapter:
 
 
 REPRO_AREA = """\
-from armi import configure; configure(permissive=True)
-from armi.reactor import blocks, components
+import armi; armi.isConfigured() or armi.configure(permissive=True)
+from armi.reactor import assemblies, blocks, components, grids
 b = blocks.HexBlock("b", height=2.0)
 b.add(components.Circle("c", "HT9", Tinput=25.0, Thot=450.0, od=1.0, id=0.0, mult=1))
-hot, cold = b.getArea(), b.getArea(cold=True)
-print(hot, cold, sum(c.getArea(cold=True) for c in b))   # cold == hot: the cache key "area" ignores `cold`
+a = assemblies.HexAssembly("fuel", assemNum=1)
+a.spatialGrid = grids.AxialGrid.fromNCells(1); a.spatialGrid.armiObject = a
+a.add(b); a.calculateZCoords()
+hot, cold, want = b.getArea(), b.getArea(cold=True), sum(c.getArea(cold=True) for c in b)
+print("getArea() =", hot, " then getArea(cold=True) =", cold, " sum of the components' cold areas =", want)
+b.clearCache(); b.getArea(cold=True)
+print("after clearCache(); getArea(cold=True):  assembly.getVolume() =", a.getVolume(), " sum of block volumes =", sum(x.getVolume() for x in a))
+defect = abs(cold - want) > 1e-12 or abs(a.getVolume() - sum(x.getVolume() for x in a)) > 1e-12
 """
 REPRO_SCALE = """\
-from armi import configure; configure(permissive=True)
+import armi; armi.isConfigured() or armi.configure(permissive=True)
 from armi.reactor import blocks, components
 b = blocks.HexBlock("b", height=2.0)
 b.add(components.Circle("fuel", "UZr", Tinput=25.0, Thot=450.0, od=1.0, id=0.0, mult=1))
-b.changeNDensByFactor(2.0)   # AttributeError: 'BlockParameterCollection' object has no attribute 'pinNDens' (densities already doubled)
+before = b.getNumberDensity("U235")
+try:
+    b.changeNDensByFactor(2.0)
+    defect = False
+except AttributeError as ex:
+    print("Block.changeNDensByFactor(2.0) raised AttributeError:", ex)
+    defect = True
+print("U235 number density before", before, "after", b.getNumberDensity("U235"))
 """
 REPRO_CUTLEAF = """\
-# a component of a block cut by symmetry lines (centre of a third core, symmetry factor 3):
-#   c.setMass("U235", 6.0); c.getMass("U235") -> 2.0        c.getMasses()["U235"] == 3 * c.getMass("U235")
-# ArmiObject.getMasses/getNumberOfAtoms/addMass/setMass use getVolume() (uncut component), Component.getMass divides by
-# parent.getSymmetryFactor().  See props/c02.py: InvAdapter on the 'Core' tree, node 1.
+import armi; armi.isConfigured() or armi.configure(permissive=True)
+from armi.reactor import assemblies, blocks, blueprints, components, geometry, grids, reactors
+r = reactors.Reactor("r", blueprints.Blueprints()); core = reactors.Core("Core"); r.add(core)
+core.spatialGrid = grids.HexGrid.fromPitch(16.0); core.spatialGrid.geomType = geometry.GeomType.HEX
+core.spatialGrid.symmetry = str(geometry.SymmetryType(geometry.DomainType.THIRD_CORE, geometry.BoundaryType.PERIODIC))
+core.spatialGrid.armiObject = core
+a = assemblies.HexAssembly("fuel", assemNum=1); a.spatialGrid = grids.AxialGrid.fromNCells(1); a.spatialGrid.armiObject = a
+b = blocks.HexBlock("b", height=1.0)
+c = components.Circle("fuel", "UZr", Tinput=25.0, Thot=25.0, od=1.0, id=0.0, mult=1)
+b.add(c); a.add(b); a.calculateZCoords(); core.add(a, core.spatialGrid[0, 0, 0])      # centre of a third core: symmetry factor 3
+print("symmetry factor", b.getSymmetryFactor())
+print("component getMass('U235') =", c.getMass("U235"), " getMasses()['U235'] =", c.getMasses()["U235"])
+c.setMass("U235", 6.0)
+print("after setMass('U235', 6.0): getMass('U235') =", c.getMass("U235"))
+defect = abs(c.getMass("U235") - 6.0) > 1e-9 or abs(c.getMasses()["U235"] - c.getMass("U235")) > 1e-9
+"""
+
+
+def empty_density_probe(rep):
+    """Inventory.tla leaves the density of an all-zero component to the material (not compared); the query must still answer.
+    One call per material used by the shape families."""
+    armi_ready()
+    n = 0
+    for mat in ("Custom", "HT9", "UZr", "Sodium"):
+        c = gb.make_component("Circle", "probe", 1.0, mat, 1, 25.0, 450.0)
+        c.p.numberDensities = {k: 0.0 for k in c.p.numberDensities}
+        n += 1
+        try:
+            float(c.density())
+        except Exception as ex:  # noqa: BLE001  an exception escaping a query is a verdict
+            rep.violation("replay:density@leaf:empty-" + mat,
+                          "Component.density() of a %s component whose number densities are all zero raises %s: %s" % (mat, type(ex).__name__, ex),
+                          {"direction": "probe", "material": mat, "reproducer": REPRO_EMPTY})
+    rep.add_replay("density-of-empty-component", n, n, "density() of an all-zero component of each material of the shape families must answer")
+
+
+REPRO_EMPTY = """\
+import armi; armi.isConfigured() or armi.configure(permissive=True)
+from armi.reactor import components
+c = components.Circle("coolant", "Sodium", Tinput=25.0, Thot=450.0, od=1.0, id=0.0, mult=1)
+c.setNumberDensities({n: 0.0 for n in c.getNuclides()})          # voided coolant
+try:
+    print("density() =", c.density()); defect = False
+except AttributeError as ex:
+    print("density() raised AttributeError:", ex); defect = True
 """
 
 
@@ -409,7 +477,9 @@ def replay_config(rep, cfg, env, families, label, max_edges=None, seed=0, weight
     if res.violation:
         rep.violation("tlc:" + res.violation["name"], "TLC: %s violated in Inventory (%s)" % (res.violation["name"], cfg),
                       {"direction": "tlc", "cfg": cfg, "trace": res.violation["trace"][:20000]})
-    rep.add_tlc("edges:" + cfg, res)
+    if cfg not in rep.extra.setdefault("emitted_configs", []):
+        rep.extra["emitted_configs"].append(cfg)
+        rep.add_tlc("edges:" + cfg, res, constants_of(cfg))
     tree = tree_of(res)
     K, _ = units()
     out = []
@@ -488,6 +558,7 @@ def run(rep, tier, seed):
     design = env["C02_LEAFVOL"]
     rep.note("design alternatives of Inventory.tla the code under test conforms to: %s" % json.dumps(env))
     area_cache(rep)
+    empty_density_probe(rep)
 
     # 1. exhaustive TLC: read-back clauses on every edge two edits deep (accounting clauses are checked in step 2's runs)
     mc = ["Inventory_core_mc%s.cfg"] + (["Inventory_blk_mc%s.cfg", "Inventory_edge_mc%s.cfg"] if thorough else [])
@@ -495,7 +566,7 @@ def run(rep, tier, seed):
         for cfg in mc:
             cfg = cfg % ("_thorough" if thorough else "")
             res = run_tlc("Inventory_mc", cfg, env, want_prints=False)
-            rep.add_tlc("exhaustive:" + cfg, res)
+            rep.add_tlc("exhaustive:" + cfg, res, constants_of(cfg))
             if res.violation:
                 rep.violation("tlc:" + res.violation["name"], "TLC: %s violated in Inventory (%s)" % (res.violation["name"], cfg),
                               {"direction": "tlc", "cfg": cfg, "trace": res.violation["trace"][:20000]})
@@ -529,7 +600,7 @@ def run(rep, tier, seed):
         for fam in fams:  # every family on every edge of the two deep emissions
             replay_config(rep, "Inventory_blk_emit_thorough.cfg", env, [fam], "block-tree-2-edits:" + fam, seed=seed, dt=(fam == "circle"),
                           weight_free_too=(fam in ("circle", "hot")))
-        replay_config(rep, "Inventory_core_emit_thorough.cfg", env, fams, "third-core-tree-2-edits", seed=seed)
+        replay_config(rep, "Inventory_core_emit_thorough.cfg", env, fams, "third-core-tree-2-edits", seed=seed, dt=False, max_edges=16000)
     need = {"SetN", "SetN!", "UpdateN", "SetNs", "Scale", "Clear", "AddMass", "AddMass!", "RemoveMass", "SetMass", "SetMass!",
             "SetMassFracs", "SetMassFracs!"}
     seen = {x.rstrip("!") if x.startswith("Scale") else x for x in seen}
@@ -642,7 +713,10 @@ def trace_driver(tree, ntraces, nev, seed, tname):
                     err = ad.apply(w, a)
                     snap = snapshot(ad, w)
                     if snap is None:
-                        break  # left the model's bounded domain of magnitudes: the history ends before this event
+                        # not a rational of the model's bounded domain of magnitudes: the history ends here, and TLC accepts this
+                        # event only if the model agrees that the edit leaves the domain
+                        ev.append({"a": a, "post": {"outside": True}})
+                        break
                     ev.append({"a": a, "post": dict(snap, err=err)})
                     cleared = cleared or (a["n"] == "Clear")
                 except Exception as ex:  # noqa: BLE001  an escaping exception ends the history; TLC rejects the event
@@ -728,11 +802,15 @@ def replay(payload):
         if worst:
             print(json.dumps({k: worst[k] for k in ("behaviour", "first_difference")}, indent=1, default=str))
         return 1 if worst else 0
-    if d == "tlc":
+    if d in ("tlc", "probe"):
         print(payload.get("what", ""))
+        print(payload.get("trace", "")[:3000])
+        print("---- stand-alone reproducer, executed now against the code under test:")
         print(payload.get("reproducer", ""))
-        print(payload.get("trace", "")[:4000])
-        return 1
+        ns = {}
+        exec(payload.get("reproducer", "defect = True"), ns)  # noqa: S102  our own script, stored with the finding
+        print("---- defect present: %s" % ns.get("defect"))
+        return 1 if ns.get("defect") else 0
     print("replay of direction=%s: see payload (recorded trace / densityTools case)" % d)
     return 0
 
@@ -907,7 +985,23 @@ def selftest():
             else:
                 missed += 1
                 print("MISSED  %-75s" % label)
-        print("selftest: %d mutants, %d missed, %.1fs" % (len(mutants), missed, time.time() - t0))
+        # the trace validator itself: a corrupted value and a dropped event must both be rejected, the untouched trace accepted
+        import copy
+
+        env = choose_designs(None)
+        tree = tree_of(run_tlc("Inventory_mc", "Inventory_core_acct.cfg", env, workers=1, coverage=False))
+        tr = [t for t in trace_driver(tree, 12, 8, 0, "Core") if len(t["ev"]) >= 3][:3]
+        t1, t2 = copy.deepcopy(tr[0]), copy.deepcopy(tr[1])
+        t1["id"], t2["id"] = "corrupted-value", "dropped-event"
+        q = t1["ev"][1]["post"]["N"][0]["a"]
+        t1["ev"][1]["post"]["N"][0]["a"] = [q[0] + 1, q[1]]
+        del t2["ev"][0]
+        bad, _ = tracecheck.validate("Inventory_trace", "Inventory_core_trace.cfg", MODDIR, [t1, t2, tr[2]], env=env)
+        got = sorted(b["trace"]["id"] for b in bad)
+        ok = got == ["corrupted-value", "dropped-event"]
+        print("%s  trace validator rejects a corrupted value and a dropped event, accepts the recorded trace   %s" % ("caught" if ok else "MISSED", got))
+        missed += 0 if ok else 1
+        print("selftest: %d mutants + 1 validator check, %d missed, %.1fs" % (len(mutants), missed, time.time() - t0))
         return 0 if not missed else 1
     finally:
         _SELFTEST = False
